@@ -19,7 +19,11 @@ func c16Scenarios() []cParams {
 	evA := []string{"call:gettx:01", "call:gettx:02", "call:sendtx:01", "call:getheaders:5", "call:getheaders:6", "call:getheader:03", "call:reprocess:04",
 		"call:markinvalid:05", "call:marknotinvalid:05", "call:feequotes:-",
 		"ans:0:proper", "ans:1:proper", "ans:0:reject", "ans:1:reject", "unsol:basetx", "unsol:accept", "unsol:reject", "unsol:header", "tick:4000", "tick:10100"}
-	return []cParams{{Prop: "C16", Cfg: cBase(client.ConnectionTypeFull), Events: evA}}
+	// calls issued before the handshake completes (the server accepts late) and across a drop
+	manual := CWorldCfg{ConnType: client.ConnectionTypeFull, AutoAccept: false, AutoReady: false, RequestTimeout: 10 * time.Second}
+	evM := []string{"call:gettx:01", "call:getheader:03", "accept:valid", "ready:1", "ans:0:proper", "ans:1:proper", "ans:0:reject", "tick:4000", "tick:10100", "drop", "tick:2100"}
+	return []cParams{{Prop: "C16", Cfg: cBase(client.ConnectionTypeFull), Events: evA},
+		{Prop: "C16", Cfg: manual, Events: evM, ExtraDepth: 1}}
 }
 
 func c17Scenarios() []cParams {
@@ -75,7 +79,7 @@ func runCCheck(cc cCheck) int {
 		}
 		st := core.BFSStats{}
 		if len(init.w.viol) == 0 {
-			st = core.BFS(pool, sub, core.BFSOpts{Op: "chist", Params: sc, MaxDepth: depth, MaxStates: maxStates, Deadline: deadline, InitKey: key, Batch: 4})
+			st = core.BFS(pool, sub, core.BFSOpts{Op: "chist", Params: sc, MaxDepth: depth + sc.ExtraDepth, MaxStates: maxStates, Deadline: deadline, InitKey: key, Batch: 4})
 		}
 		totalS += st.States
 		totalT += st.Transitions
@@ -99,7 +103,9 @@ func runCCheck(cc cCheck) int {
 			rep.Coverage["cap_hit"] = sub.Coverage["cap_hit"]
 		}
 		rep.Coverage[fmt.Sprintf("scenario_%d_levels", si)] = st.LevelSizes
-		rep.Coverage["depth_completed"] = st.Depth
+		if d, ok := rep.Coverage["depth_completed"].(int); !ok || st.Depth-sc.ExtraDepth < d {
+			rep.Coverage["depth_completed"] = st.Depth - sc.ExtraDepth
+		}
 	}
 	rep.Coverage["states"] = totalS
 	rep.Coverage["transitions"] = totalT
